@@ -40,6 +40,7 @@ def run(chk, repo: Repo):
     chk.rule("C04-R6", "product-form log-densities: no parameter-only term summed separately from the broadcast expression", floor=6)
     _r1(chk, repo)
     _r2(chk, repo)
+    _r2_special_functions(chk, repo)
     _r3(chk, repo)
     _r4(chk, repo)
     _r5(chk, repo)
@@ -381,8 +382,13 @@ def _r5(chk, repo):
             "normalised and un-normalised Gaussian log-density do not differ by the x-independent constant -(rank log 2pi + logdet)/2", lp)
     lu = repo.method(ga, "_logupdf")[1]
     xx = func_params(lu)[1]
-    ok = f"return -0.5*np.sum(np.square(self.sqrtprec@({xx}-self.mean).T),axis=0).flatten()" in views(repo, ga, lu)
-    chk.add("C04-R5", f"{ga.qual}._logupdf", ok, site(repo, lu), "-||sqrtprec @ (x - mean)||^2 / 2", "un-normalised Gaussian log-density changed", lu)
+    # the value returned on EVERY path, closed in the argument (a conditional re-interpretation of the argument - e.g. transposing it when its leading
+    # length happens to equal dim - is a second outcome)
+    from .common import closed_outcomes, expected_text
+    outs = closed_outcomes(repo, ga, lu)
+    want = {("return", expected_text(f"-0.5*np.sum(np.square(self.sqrtprec@({xx}-self.mean).T),axis=0).flatten()"))}
+    chk.add("C04-R5", f"{ga.qual}._logupdf", outs == want, site(repo, lu), "-||sqrtprec @ (x - mean)||^2 / 2 on every path",
+            f"un-normalised Gaussian log-density is {sorted(outs, key=str)[:2]}: not -||sqrtprec @ (x - mean)||^2 / 2 of the argument as given on every path", lu)
     dist = repo.cls("cuqi/distribution/_distribution.py:Distribution")
     dl = repo.method(dist, "_logd")[1]
     ok = any(_norm(n.value) == "self.logpdf(*args)" for n in ast.walk(dl) if isinstance(n, ast.Return))
@@ -390,6 +396,58 @@ def _r5(chk, repo):
 
 
 PRODUCT_FORM = ["Normal", "Laplace", "SmoothedLaplace", "Cauchy", "Gamma", "InverseGamma", "Beta"]
+
+_ERF_CONTROL = """
+def cdf(self, x):
+    a = 0.5*(1 + erf((x-self.mean)/(self.std*np.sqrt(2))))
+    b = ndtr((x-self.mean)/(self.std*np.sqrt(2)))
+    c = erf((x-self.mean)/self.std)
+    d = ndtr((x-self.mean)/self.std)
+    return a, b, c, d
+"""
+
+
+def _erf_scaling(tree):
+    """(call, ok, why) for every Gaussian-tail special function: erf / erfc take the deviation in units of sqrt(2) standard deviations, ndtr / norm.cdf /
+    log_ndtr in units of one standard deviation"""
+    out = []
+    for c in ast.walk(tree):
+        if not (isinstance(c, ast.Call) and c.args):
+            continue
+        fn_ = (call_name(c) or "").rsplit(".", 1)[-1]
+        if fn_ not in ("erf", "erfc", "ndtr", "log_ndtr") and not (call_name(c) or "").endswith("norm.cdf"):
+            continue
+        arg = c.args[0]
+        has_sqrt2 = any((isinstance(k, ast.Call) and (call_name(k) or "").rsplit(".", 1)[-1] == "sqrt" and k.args and isinstance(k.args[0], ast.Constant) and k.args[0].value in (2, 2.0))
+                        or (isinstance(k, ast.BinOp) and isinstance(k.op, ast.Pow) and isinstance(k.left, ast.Constant) and k.left.value in (2, 2.0)
+                            and isinstance(k.right, ast.Constant) and k.right.value == 0.5)
+                        or (isinstance(k, ast.Attribute) and k.attr == "SQRT2") for k in ast.walk(arg))
+        scaled = any(isinstance(k, ast.BinOp) and isinstance(k.op, ast.Div) for k in ast.walk(arg))      # a standardised deviation, not a bare number
+        if not scaled:
+            continue
+        if fn_ in ("erf", "erfc"):
+            out.append((c, has_sqrt2, "erf((x - m)/(s*sqrt(2)))"))
+        else:
+            out.append((c, not has_sqrt2, "ndtr((x - m)/s)"))
+    return sorted(out, key=lambda r: (r[0].lineno, r[0].col_offset))
+
+
+def _r2_special_functions(chk, repo):
+    ctl = _erf_scaling(ast.parse(_ERF_CONTROL))
+    if [ok for _, ok, _ in ctl] != [True, False, False, True]:
+        raise AnchorError(f"erf-scaling positive control did not fire as expected: {[ok for _, ok, _ in ctl]}")
+    n = 0
+    for rel in sorted(repo.modules):
+        if not rel.startswith("cuqi/distribution/"):
+            continue
+        m = repo.modules[rel]
+        for c, ok, want in _erf_scaling(m.tree):
+            n += 1
+            chk.add("C04-R2", f"{rel}/tail-function@{unparse(c.func)}", ok, f"{rel}:{c.lineno}", f"argument in the function's own units: {want}",
+                    f"`{unparse(c)[:80]}`: the standardised deviation is scaled for the other Gaussian tail function (expected the form {want}); the cdf is that of "
+                    f"a Gaussian with a different standard deviation than pdf / logpdf describe", c)
+    if n < 1:
+        raise AnchorError("no Gaussian tail function found in cuqi/distribution (Normal.cdf confirmed by hand)")
 
 
 def _r6(chk, repo):
